@@ -1,7 +1,8 @@
 (* Props/C12.v — Recorded rates follow the winning records and are immutable.
    Only statements, each closed by [exact]; proofs live in Lemmas/. *)
 From Model Require Import Examples.
-From Lemmas Require Import ChainLemmas HoldingLemmas NoWinners NoWinnersStatus.
+From Coq Require Import Reals.
+From Lemmas Require Import ChainLemmas HoldingLemmas NoWinners NoWinnersStatus BandLemmas.
 Open Scope Z_scope.
 
 (* Rates once recorded for a height never change: whatever a later block contains, every rate
@@ -64,6 +65,29 @@ Theorem C12_band_rule : forall c h n ov sv,
     else RErr.
 Proof. exact band_one_asset. Qed.
 Print Assumptions C12_band_rule.
+(* The band predicate is a binary64 computation; its link to the real-number rule "kept iff |o - s| <= T x s", for EVERY
+   pair of uint64 quotes and each of the four tolerances (T = 1/10, 1/4, 1/100, 1/1000), with eps = 2^-50 covering the
+   roundings of float64(o), float64(s), 1 +/- tol and the two products (Flocq; Lemmas/BandLemmas.v): *)
+Theorem C12_band_sound : forall tol T o s, band_tol tol T ->
+  0 <= o < 2 ^ 64 -> 0 < s < 2 ^ 64 -> in_band tol o s = true ->
+  (Rabs (IZR o - IZR s) <= (T + eps50) * IZR s)%R.
+Proof. exact band_sound. Qed.
+Theorem C12_band_complete : forall tol T o s, band_tol tol T ->
+  0 <= o < 2 ^ 64 -> 0 < s < 2 ^ 64 ->
+  (Rabs (IZR o - IZR s) <= (T - eps50) * IZR s)%R -> in_band tol o s = true.
+Proof. exact band_complete. Qed.
+Print Assumptions C12_band_complete.
+(* for the band in force today (25 %) and quotes below 2^50 the predicate IS the integer rule *)
+Theorem C12_band_25_exact : forall o s, 0 <= o < 2 ^ 53 -> 0 < s < 2 ^ 50 ->
+  in_band tol_25 o s = (4 * Z.abs (o - s) <=? s).
+Proof. exact band_25_exact. Qed.
+(* eps cannot be 0: 1 + 0.001 rounds below 1001/1000, so a quote exactly 0.1 % above is dropped (closed era) ... *)
+Example C12_band_01_upper_edge : in_band tol_01 100100 100000 = false /\ in_band tol_01 100099 100000 = true.
+Proof. vm_compute. split; reflexivity. Qed.
+(* ... and above 2^53 a quote strictly more than 10 % away can be kept *)
+Example C12_band_needs_eps : in_band tol_10 6306855386940901 5733504897219000 = true /\
+  10 * (6306855386940901 - 5733504897219000) > 5733504897219000.
+Proof. exact band_sound_needs_eps. Qed.
 Example C12_band_edges :
   in_band tol_10 110000 100000 = true /\ in_band tol_10 110001 100000 = false /\
   in_band tol_25 125000 100000 = true /\ in_band tol_25 125001 100000 = false /\
